@@ -41,6 +41,27 @@ theorem firstFailure_ok (os : List Out) (h : os.all Out.isOk = true) :
     | err e => simp [Out.isOk] at h
     | esc v => simp [Out.isOk] at h
 
+/-- an error that comes out is the outcome of one of the elements -/
+theorem firstFailure_err_mem (os : List Out) (e : Err) (h : firstFailure os = .err e) : Out.err e ∈ os := by
+  induction os with
+  | nil => simp [firstFailure] at h
+  | cons a os ih =>
+    simp only [firstFailure] at h
+    cases a with
+    | ok v =>
+      cases hf : firstFailure os with
+      | ok vs => simp [hf, combine] at h
+      | err e' =>
+        simp only [hf, combine, OutL.err.injEq] at h
+        subst h
+        exact List.mem_cons_of_mem _ (ih hf)
+      | esc w => simp [hf, combine] at h
+    | err e' =>
+      simp only [combine, OutL.err.injEq] at h
+      subst h
+      exact List.mem_cons_self
+    | esc w => simp [combine] at h
+
 /-! ### shapes -/
 
 mutual
@@ -139,14 +160,14 @@ theorem any_false_of_countP {α : Type} (p : α → Bool) (l : List α) (h : l.a
   have : l.any p = true := List.any_eq_true.mpr ⟨a, ha, hpa⟩
   rw [h] at this; cases this
 
-theorem topA_sem (c : Call) (p : Prog) (hr : p.noRes = true) (s' : St) (hm' : s'.mode = false)
+theorem topA_sem (c : Call) (p : Prog) (hr : p.noRes = true) (hx : p.safe = true) (s' : St) (hm' : s'.mode = false)
     (hn : (topA c p {}).2.log.any isSyncX = false) : (topA c p {}).1 = (topCall c p s').1 := by
   rw [topA_eq] at hn ⊢
   simp only [topCall, hm', Bool.false_eq_true, if_false]
   have h0 : (bodyA c.kind.isGen c.label [] none 0 p (callPre c {})).2.nSync = 0 := any_false_of_countP _ _ hn
   have hle := (callPre_ext c {}).nSync_le
   have hle2 := (bodyA_good p c.kind.isGen c.label [] none 0 (callPre c {}) (by simp) hr).2.nSync_le
-  exact bodyA_sem p _ _ _ _ _ _ _ (by simp) (by simp [hm']) hr (by omega)
+  exact bodyA_sem p _ _ _ _ _ _ _ (by simp) (by simp [hm']) hr (Safe.ofBool hx) (by omega)
 
 theorem spec_intro (o1 o2 o3 o4 o5 : Obs) (c1 : o1.conv = .call) (c2 : o2.conv = .value) (c3 : o3.conv = .aio)
     (c4 : o4.conv = .aiorun) (c5 : o5.conv = .aiotask)
